@@ -11,7 +11,7 @@ RULE = ("(a) random programs (bounded/ref.py generator: lets, aliases with liter
         "checks that str(float) on the grid has the shape the data lemma assumes; checks: text accepted, circuits equal, same reference meaning, "
         "second generation byte-identical; non-trivial = program has a macro, alias, let or subcircuit / literal is in exponent form")
 BOUND = "n <= 4, depth <= 3; literal grid |k| <= 30"
-BUDGET_S = {"quick": 40, "thorough": 600}
+BUDGET_S = {"quick": 40, "thorough": 400}
 
 
 def cases(tier, rng):
